@@ -742,6 +742,19 @@ func (s *Store[H]) init(ctx context.Context) error {
 		log.Debugw("initialized tail", "height", tail.Height())
 	}
 
+	// if only one of the pointers got lost, recover it from the other one, otherwise the next Append
+	// initializes it off an arbitrary header, potentially leaving Tail above Head.
+	// The next write moves it to its actual position by advancing head/receding tail.
+	switch {
+	case head.IsZero() && !tail.IsZero():
+		s.contiguousHead.Store(&tail)
+		s.heightSub.Init(tail.Height())
+		log.Warnw("head pointer is lost, recovering from tail", "height", tail.Height())
+	case tail.IsZero() && !head.IsZero():
+		s.tailHeader.Store(&head)
+		log.Warnw("tail pointer is lost, recovering from head", "height", head.Height())
+	}
+
 	return nil
 }
 
